@@ -129,6 +129,7 @@ func TestC13(t *testing.T) {
 	c13FileSink(run, r)
 	c13Channel(run, r)
 	c13ChannelQueued(run, r)
+	c13WriterRaw(run, r)
 	c13FileFaults(run, r)
 	c13PartialWrites(run, r)
 }
@@ -793,5 +794,43 @@ func c13ChannelQueued(run *rt.Run, r *rt.Rand) {
 			}
 		}
 		run.Eval(fmt.Sprintf("queued|%d|%d|%s", capn, nA, bKind))
+	}
+}
+
+
+// c13WriterRaw: what is stored under a format is a byte string, not a line: it may lack a trailing newline, be
+// binary, or be a window into a buffer that also holds the value of another format. A sink writes exactly those
+// bytes and leaves the event's table as it found it (the next sink, for the neighbouring format, writes exactly
+// its bytes).
+func c13WriterRaw(run *rt.Run, r *rt.Rand) {
+	n := run.N(120, 6000)
+	for i := 0; i < n && !run.Stop(); i++ {
+		a, b := genBody(r, r.Range(1, 40)), genBody(r, r.Range(1, 40))
+		switch r.Intn(4) {
+		case 0:
+			a = append(a, '\n')
+		case 1:
+			a[len(a)-1] = 'x' // certainly no newline at the end
+		}
+		buf := append(append([]byte(nil), a...), b...)
+		wantA, wantB := append([]byte(nil), a...), append([]byte(nil), b...)
+		ev := &eventlogger.Event{Type: "t", Formatted: map[string][]byte{"json": buf[:len(a)], "text": buf[len(a):]}}
+		wa, wb := &recWriter{mode: "ok"}, &recWriter{mode: "ok"}
+		sa, sb := &writer.Sink{Format: "json", Writer: wa}, &writer.Sink{Format: "text", Writer: wb}
+		_, errA := sa.Process(context.Background(), ev)
+		_, errB := sb.Process(context.Background(), ev)
+		wit := map[string]any{"sink": "writer.Sink", "json_value": fmt.Sprintf("%q", wantA), "text_value": fmt.Sprintf("%q", wantB), "written_by_json_sink": fmt.Sprintf("%q", wa.log), "written_by_text_sink": fmt.Sprintf("%q", wb.log),
+			"note": "both values are windows into one buffer, json first"}
+		run.Eval(fmt.Sprintf("raw|%v|%d|%d", len(a) > 0 && a[len(a)-1] == '\n', len(a), len(b)))
+		switch {
+		case errA != nil || errB != nil:
+			run.Violation("history-pattern:spurious-error", fmt.Sprintf("Process failed (%v / %v) although the configured format is present and the writer works", errA, errB), wit)
+		case !bytes.Equal(wa.log, wantA):
+			run.Violation("history-pattern:content", "the sink for format json did not write exactly the bytes stored under json", wit)
+		case !bytes.Equal(wb.log, wantB):
+			run.Violation("history-pattern:content", "the sink for format text did not write exactly the bytes stored under text (after the json sink had processed the same event)", wit)
+		case !bytes.Equal(ev.Formatted["json"], wantA) || !bytes.Equal(ev.Formatted["text"], wantB):
+			run.Violation("history-pattern:content", "a sink changed the bytes stored in the event's format table", wit)
+		}
 	}
 }
